@@ -142,6 +142,9 @@ func (j jarRW) ReadState(r *http.Request) (authboss.ClientState, error) {
 	}
 	defer j.S.guard()()
 	b := j.S.W.Browsers[r.Header.Get("X-Browser")]
+	if j.S.Cfg.NilEmptyState && (b == nil || len(j.jar(b)) == 0) {
+		return nil, nil
+	}
 	snap := snapshot{}
 	if b != nil {
 		for k, v := range j.jar(b) {
